@@ -220,6 +220,12 @@ fn main() {
         "calls": calls.iter().take(25).map(|c| c.to_json()).collect::<Vec<_>>(), "total_calls": calls.len()}));
     }
     if let Some(d) = div {
+      if l.fails.iter().any(|f| f.signature.ends_with(&d.kind)) {
+        // already have a minimised witness of this kind from this worker: count only
+        l.count(&format!("fail[{}]", d.kind), 1);
+        let _ = std::fs::remove_dir_all(&dir);
+        return;
+      }
       // classify
       let min = shrink(&dir, &schema, &calls, &rc, &d.kind);
       let d2 = run_history(&dir, &schema, &min, &rc, None);
